@@ -119,13 +119,14 @@ def gen(rng: random.Random, tier: str):
         L = rng.randint(0, 5)
         yield {"kind": "itemlist", "len": L, "str_ids": rng.random() < 0.3,
                "fields": rng.choice([[], ["score"], ["score", "rating"], ["rating", "cnt"], ["score", "discount", "exposure"], ["label", "item_pop"], ["dcg", "freq", "lift"], ["field_x", "e"]]),
-               "ordered": rng.random() < 0.5, "seed": rng.randrange(10**6), "vocab": rng.choice(["none", "none", "known", "with-unknown"])}
+               "ordered": rng.random() < 0.5, "seed": rng.randrange(10**6), "vocab": rng.choice(["none", "none", "known", "with-unknown"]),
+               "nan_scores": rng.random() < 0.15}          # a score field that is NaN for every item (e.g. nothing could be scored)
     for _ in range(n // 2):
         yield {"kind": "collection", "n": rng.randint(0, 4), "same_fields": rng.random() < 0.6, "seed": rng.randrange(10**6)}
     for _ in range(max(4, n // 10)):
         yield {"kind": "dataset", "seed": rng.randrange(10**6), "extra": rng.random() < 0.5, "how": rng.choice(["native", "pickle"])}
 
-def _mk_il(rnd, L, str_ids, fields, ordered, vocab="none"):
+def _mk_il(rnd, L, str_ids, fields, ordered, vocab="none", nan_scores=False):
     ids = rnd.sample(range(100, 130), L)
     kw = {}
     for extra in fields:
@@ -136,7 +137,7 @@ def _mk_il(rnd, L, str_ids, fields, ordered, vocab="none"):
         universe = [conv(x) for x in range(100, 130)]
         if vocab == "with-unknown" and L: universe = [u for u in universe if u != conv(ids[0])]      # the first item is not in the vocabulary
         kw["vocabulary"] = Vocabulary(universe)
-    if "score" in fields: kw["scores"] = np.array([rnd.choice([1.5, -2.0, math.nan, 0.0]) for _ in range(L)], dtype="f4")
+    if "score" in fields: kw["scores"] = np.array([math.nan if nan_scores else rnd.choice([1.5, -2.0, math.nan, 0.0]) for _ in range(L)], dtype="f4")
     if "rating" in fields: kw["rating"] = np.array([float(rnd.randint(1, 5)) for _ in range(L)])
     if "cnt" in fields: kw["cnt"] = np.array([rnd.randint(0, 9) for _ in range(L)], dtype="i4")
     if str_ids: return ItemList(item_ids=np.array([f"i{x}" for x in ids], dtype=object) if L else np.array([], dtype=object), ordered=ordered, **kw)
@@ -175,10 +176,10 @@ def run(case: dict, lean: Lean) -> Outcome:
         return Outcome(corr, not failed, tuple(classes), {"impl": real, "model": model, "failed": failed, "delete_order": del_order}, None)
     rnd = random.Random(case["seed"])
     if kind == "itemlist":
-        il = _mk_il(rnd, case["len"], case["str_ids"], case["fields"], case["ordered"], case.get("vocab", "none")); c = canon(il)
+        il = _mk_il(rnd, case["len"], case["str_ids"], case["fields"], case["ordered"], case.get("vocab", "none"), case.get("nan_scores", False)); c = canon(il)
         if case.get("vocab", "none") != "none": classes.append("vocabulary-backed list" + (" with an unknown identifier" if case["vocab"] == "with-unknown" and case["len"] else ""))
         if any(f not in ("score", "rating", "cnt") for f in case["fields"]): classes.append("custom field names")
-        fresh = lambda: _mk_il(random.Random(case["seed"]), case["len"], case["str_ids"], case["fields"], case["ordered"], case.get("vocab", "none"))
+        fresh = lambda: _mk_il(random.Random(case["seed"]), case["len"], case["str_ids"], case["fields"], case["ordered"], case.get("vocab", "none"), case.get("nan_scores", False))
         for how, f in (("arrow", lambda: ItemList.from_arrow(fresh().to_arrow())), ("frame", lambda: ItemList.from_df(fresh().to_df())), ("pickle", lambda: pickle.loads(pickle.dumps(fresh()))),
                        ("pickle after use", lambda: pickle.loads(pickle.dumps(il)))):
             try:
